@@ -93,6 +93,9 @@ class ExprGen:
         self.leafconts = [p for p in spec.containers
                           if all(c in spec.leaf_type for c in spec.children[p])]
         self.ops_off = set(cfg.get("ops_off", ()))
+        # deferred equality (a._eq(b)) prints as (a == b), which does not rebuild the node:
+        # kept out of everything that goes through printed text (load / dump / gen_fun)
+        self.no_eqne = bool(cfg.get("no_eqne", False))
 
     def lit(self, typ):
         rng = self.rng
@@ -163,7 +166,7 @@ class ExprGen:
         if k == "floor":
             return ("bi", rng.choice(["floor", "ceil", "trunc"]), self.gen("f", d, True), ())
         if k == "cmp":
-            o = rng.choice(["<", "<=", ">", ">=", "==", "!="])
+            o = rng.choice(["<", "<=", ">", ">="] if self.no_eqne else ["<", "<=", ">", ">=", "==", "!="])
             a = self.gen("f", d, True)
             b = self.gen("f", d, False)
             if o in ("==", "!=") or rng.random() < 0.6 or not has_ref(b):
@@ -237,6 +240,8 @@ def swarm_config(rng, tier="quick", **over):
         if rng.random() < 0.2:
             offs.append(k)
     cfg["ops_off"] = offs
+    for k, v in over.pop("weights_over", {}).items():
+        w[k] = v
     cfg.update(over)
     return cfg
 
@@ -338,6 +343,16 @@ class HistoryGen:
             if not m.knobs:
                 return None
             return ("unregk", rng.choice(list(m.knobs)))
+        if kind == "load":
+            n = rng.randint(1, 3)
+            pairs = []
+            keep, self.eg.no_eqne = self.eg.no_eqne, True
+            for p in rng.sample(free, min(n, len(free))):
+                pairs.append((p, self.eg.gen(spec.leaf_type[p], min(2, self.cfg["expr_depth"]), True)))
+            self.eg.no_eqne = keep
+            return ("load", tuple(pairs), rng.random() < 0.7)
+        if kind in ("refresh", "cleanup", "verify"):
+            return (kind,)
         return None
 
     def history(self, n_ops=None, attempts_per_op=8):
